@@ -82,13 +82,12 @@ CHECKS['C19'] = (
     BASE_NOTE + 'KeyInjective hypothesis on the float sort key (ties skipped and counted); ECP terms compared in stored order.', '6/C19')
 
 CHECKS['C18'] = (
-    'Lean 4 theorem validateShell = none <-> ValidShell (the declarative rule list) + differential execution of the Lean validator model against '
+    'Lean 4 theorems validateShell = none <-> ValidShell, validatePots = none <-> ValidPots, validateElement = none <-> (valid, pairwise different shells and valid potentials with an electron count) + differential execution of the Lean validator model against '
     'validator.validate_data on valid dictionaries and ~50 classes of single-rule mutations',
     'Proof (on the model): validateShell_iff / validateShells_iff — the executable model of _validate_electron_shells accepts exactly the shells that '
     'satisfy every documented rule (non-empty, tag iff l>1, distinct positive exponents, row lengths, no zero contraction, no duplicate contraction, no '
     'unused primitive, one contraction per fused member), with reject_* corollaries. Tie: model verdict vs library verdict per element on valid data '
-    '(generated in three forms + store) and on every semantic mutation. Partial: the ECP rules are modelled and correspondence-checked but their iff is '
-    'not proved; the generic JSON-schema engine is exercised by schema mutations only.',
+    '(generated in three forms + store) and on every semantic mutation. validatePots_iff / validateElement_iff do the same for the ECP rules (single momentum, one potential per momentum, lengths, strictness exception for the single-term top potential) and the element level (uniqueItems, ecp_electrons). Partial: the generic JSON-schema engine is exercised by schema mutations only.',
     BASE_NOTE + 'jsonschema package.', '6/C18')
 CHECKS['C06'] = (
     'Lean 4 theorems: _make_key = Python binding on every call shape of every memoised signature (decide +kernel over the signatures regenerated from '
